@@ -34,6 +34,8 @@ class _ILoc:
         self.o = owner
 
     def __getitem__(self, key):
+        if isinstance(key, _Index):
+            key = key.values
         if isinstance(self.o, FakeSeries):
             v = self.o.values[key]
             if isinstance(v, np.ndarray):
@@ -173,6 +175,9 @@ class FakeSeries:
 class _Index:
     def __init__(self, values):
         self.values = np.asarray(values)
+
+    def __index__(self):
+        raise TypeError("index object is not an integer")
 
     def __getitem__(self, k):
         k = k.values if isinstance(k, FakeSeries) else k
